@@ -421,6 +421,31 @@ def check_case(case, rec):
                 return
             finally:
                 _drop_index_cache(p)
+            # the same records written in two sessions (second one with append=True) read back as one file
+            import chython.files as F
+            p2 = os.path.join(tmp, 'b.sdf' if 'SDF' in writer else 'b.rdf')
+            k = 1 + case['damage'] % (len(records) - 1)
+            try:
+                with getattr(F, writer)(p2) as w:
+                    for r in records[:k]:
+                        w.write(r)
+                with getattr(F, writer)(p2, append=True) as w:
+                    for r in records[k:]:
+                        w.write(r)
+                with R(p2) as rd:
+                    two = list(rd)
+            except Exception as e:
+                from ..core import chython_frame
+                rec.fail('append', f'{label}: {type(e).__name__}: {e}', sig=f'{writer}:{type(e).__name__}@{chython_frame(e.__traceback__)}')
+                return
+            one = read_all(writer, text)
+            if [record_fields_any(x) for x in two] != [record_fields_any(x) for x in one] or \
+                    [{kk: meta_norm(v) for kk, v in x.meta.items() if not kk.startswith('chython_')} for x in two] != \
+                    [{kk: meta_norm(v) for kk, v in x.meta.items() if not kk.startswith('chython_')} for x in one]:
+                rec.fail('append', f'{label}: records written in two sessions (append=True after {k}) read back differently from the same '
+                                   f'records written in one session', sig=writer)
+                return
+            rec.count('append-files')
             if n != len(records) or idx != seq or sl != seq[1:]:
                 rec.fail('random-access', f'{label}: indexed access differs from sequential reading ({n} records)', sig=writer)
                 return
